@@ -68,3 +68,55 @@ pub fn dispatch_count() -> u64 {
 pub fn count_dispatch() {
     DISPATCH_COUNT.fetch_add(1, Ordering::Relaxed);
 }
+
+/// Opcode bytes by name, so that harnesses do not hard-code the numbering
+pub mod op {
+    use crate::instruction::Instruction as I;
+    pub const ADD: u8 = I::Add as u8;
+    pub const SUB: u8 = I::Sub as u8;
+    pub const MUL: u8 = I::Mul as u8;
+    pub const DIV: u8 = I::Div as u8;
+    pub const CALL_NATIVE: u8 = I::CallNative as u8;
+    pub const SCALAR_INT: u8 = I::ScalarInt as u8;
+    pub const SCALAR_FLOAT: u8 = I::ScalarFloat as u8;
+    pub const SCALAR_NIL: u8 = I::ScalarNil as u8;
+    pub const STRING_LITERAL: u8 = I::StringLiteral as u8;
+    pub const COPY_LAST: u8 = I::CopyLast as u8;
+    pub const EXIT: u8 = I::Exit as u8;
+    pub const CALL_FUNCTION: u8 = I::CallFunction as u8;
+    pub const EQUALS: u8 = I::Equals as u8;
+    pub const NOT_EQUALS: u8 = I::NotEquals as u8;
+    pub const LESS: u8 = I::Less as u8;
+    pub const LESS_OR_EQ: u8 = I::LessOrEq as u8;
+    pub const POP: u8 = I::Pop as u8;
+    pub const SET_GLOBAL_VAR: u8 = I::SetGlobalVar as u8;
+    pub const READ_GLOBAL_VAR: u8 = I::ReadGlobalVar as u8;
+    pub const SET_LOCAL_VAR: u8 = I::SetLocalVar as u8;
+    pub const READ_LOCAL_VAR: u8 = I::ReadLocalVar as u8;
+    pub const CLEAR_STACK: u8 = I::ClearStack as u8;
+    pub const RETURN: u8 = I::Return as u8;
+    pub const SWAP_LAST: u8 = I::SwapLast as u8;
+    pub const AND: u8 = I::And as u8;
+    pub const OR: u8 = I::Or as u8;
+    pub const XOR: u8 = I::Xor as u8;
+    pub const NOT: u8 = I::Not as u8;
+    pub const GOTO: u8 = I::Goto as u8;
+    pub const GOTO_IF_TRUE: u8 = I::GotoIfTrue as u8;
+    pub const GOTO_IF_FALSE: u8 = I::GotoIfFalse as u8;
+    pub const INIT_TABLE: u8 = I::InitTable as u8;
+    pub const GET_PROPERTY: u8 = I::GetProperty as u8;
+    pub const SET_PROPERTY: u8 = I::SetProperty as u8;
+    pub const LEN: u8 = I::Len as u8;
+    pub const BEGIN_FOR_EACH: u8 = I::BeginForEach as u8;
+    pub const FOR_EACH: u8 = I::ForEach as u8;
+    pub const FUNCTION_POINTER: u8 = I::FunctionPointer as u8;
+    pub const NATIVE_FUNCTION_POINTER: u8 = I::NativeFunctionPointer as u8;
+    pub const NTH_ROW: u8 = I::NthRow as u8;
+    pub const APPEND_TABLE: u8 = I::AppendTable as u8;
+    pub const POP_TABLE: u8 = I::PopTable as u8;
+    pub const CLOSURE: u8 = I::Closure as u8;
+    pub const SET_UPVALUE: u8 = I::SetUpvalue as u8;
+    pub const READ_UPVALUE: u8 = I::ReadUpvalue as u8;
+    pub const REGISTER_UPVALUE: u8 = I::RegisterUpvalue as u8;
+    pub const CLOSE_UPVALUE: u8 = I::CloseUpvalue as u8;
+}
